@@ -1,4 +1,5 @@
 """C11 — Galerkin entries are additive under splitting of either element."""
+import os
 import contextlib
 import io
 from fractions import Fraction as F
@@ -92,8 +93,71 @@ def correspond(res, tier):
     corr_panels(res, tier, 'C11p', curves=('unitsquare', 'lshape'))
 
 
+_PROBE = r"""
+import contextlib, io, sys, math
+from src.mesh import MeshParametrized
+from src.parametrization import UnitSquare, Circle
+from src.single_layer import SingleLayerOperator
+from src.hierarchical_error_estimator import DummyElement
+order = sys.argv[1]
+out = []
+for curve in (UnitSquare(), Circle()):
+    with contextlib.redirect_stdout(io.StringIO()):
+        mesh = MeshParametrized(curve)
+        mesh.uniform_refine()
+        if order == 'preview-first':
+            preview = SingleLayerOperator(mesh, quad_order=2)        # a cheap low-order operator, e.g. for a first look
+            preview.bilform(list(mesh.leaf_elements)[0], list(mesh.leaf_elements)[0])
+        SL = SingleLayerOperator(mesh)                               # the operator whose entries are used
+        if order == 'preview-after':
+            preview = SingleLayerOperator(mesh, quad_order=2)
+    els = list(mesh.leaf_elements)
+    for te, tr in ((els[0], els[0]), (els[-1], els[0]), (els[-1], els[1]), (els[len(els) // 2], els[0])):
+        if te.time_interval[1] <= tr.time_interval[0]:
+            continue
+        parent = SL.bilform(tr, te)
+        kids_t = DummyElement.uniform_refinement([te])[0]
+        kids_r = DummyElement.uniform_refinement([tr])[0]
+        s = sum(SL.bilform(b, a) for a in kids_t for b in kids_r)
+        sc = math.sqrt(abs(SL.bilform(te, te) * SL.bilform(tr, tr)))
+        out.append('%s %r %r %s %s %s' % (type(curve).__name__, (tuple(map(float, te.time_interval)), tuple(map(float, te.space_interval))),
+                                          (tuple(map(float, tr.time_interval)), tuple(map(float, tr.space_interval))),
+                                          float(parent).hex(), float(s).hex(), float(sc).hex()))
+print('\n'.join(out))
+"""
+
+
+def construction_order_probe(res):
+    """Fresh interpreter per run: the default operator alone, or with a low-order operator (quad_order=2) constructed before /
+    after it in the same process.  Additivity over the 4 x 4 quarters must hold for the default operator in each run."""
+    import subprocess
+    import sys
+    from ..common import REPO
+    for order in ('alone', 'preview-first', 'preview-after'):
+        env = dict(os.environ, PYTHONPATH=REPO)
+        try:
+            pr = subprocess.run([sys.executable, '-c', _PROBE, order], capture_output=True, text=True, timeout=600, env=env, cwd='/')
+        except subprocess.TimeoutExpired:
+            res.notes['construction_order_probe'] = 'timeout'
+            return
+        if pr.returncode != 0:
+            res.violation('C11:construction-order:%s:raises' % order, dict(order=order, stderr=pr.stderr[-1500:]))
+            continue
+        for line in pr.stdout.strip().splitlines():
+            f = line.rsplit(' ', 3)
+            parent, s, sc = (float.fromhex(v) for v in f[1:])
+            err = abs(s - parent) / sc
+            res.count(('construction-order', order, f[0]), True)
+            if err > 1e-7:
+                res.violation('C11:not-additive:construction-order:%s' % order,
+                              dict(order=order, pair=f[0], parent=parent, sum_of_quarters=s, scaled_defect=err,
+                                   history='fresh interpreter; operators constructed in the order %r; entries of the default operator' % order))
+                break
+
+
 def search(res, tier, boost=False):
     rng = seed_rng(res.seed, 'C11s')
+    construction_order_probe(res)
     curves = ['UnitSquare', 'Circle', 'LShape', 'PiSquare']
     n_mesh = (3 if tier == 'quick' else 12) * (2 if boost else 1)
     n_pairs = 8 if tier == 'quick' else 20
